@@ -438,6 +438,10 @@ func loadChunk(l *Lexer, recordLen uint64) error {
 			return ErrChunkTooLarge
 		}
 		if uint64(len(l.uncompressedChunk)) < uncompressedSize {
+			if uncompressedSize >= math.MaxInt32 {
+				// checked before doubling: the product must not wrap around
+				return fmt.Errorf("failed to allocate chunk buffer: %w", ErrLengthOutOfRange)
+			}
 			l.uncompressedChunk, err = makeSafe(uncompressedSize * 2)
 			if err != nil {
 				return fmt.Errorf("failed to allocate chunk buffer: %w", err)
